@@ -15,5 +15,19 @@ RB_RULE = ("; engine B: the unmodified ninja executable as a client of a real FI
            "must all end well before it does (the real poll loop and waitpid)")
 
 
+JS_RULE = ("; engine A under a jobserver (seam S6a): ninja's own client code on a real FIFO owned by the harness, whose other "
+           "client takes and returns tokens at every wait of ninja (choice points, bounded number of moves): running <= "
+           "tokens held + the implicit slot at every start, pool + other client hold every token again after ninja exits on "
+           "every path (success, failures, -k0, start failure, child dying of SIGINT, interrupt at every wait), no startable "
+           "statement while the pool is readable and not watched, no livelock (step horizon), an explicit -j leaves the pool alone")
+
+
+def fams(tier):
+    import templates_js
+    out = nxprops.families(tier)
+    out.append(("jobserver pool x other client (engine A)", templates_js.templates(tier), None, None))
+    return out
+
+
 def main(argv):
-    nxprops.run_check("C06", argv, ["C06"], RULE + RB_RULE, process_level=rbchecks.c06_process_level)
+    nxprops.run_check("C06", argv, ["C06"], RULE + JS_RULE + RB_RULE, fam_fn=fams, process_level=rbchecks.c06_process_level)
